@@ -225,13 +225,15 @@ static bool build_case(uint64_t seed, Case &c, std::string &skip) {
     static const Syntax menu[] = {SY_DER, SY_BER, SY_BER, SY_OER, SY_OER, SY_XER, SY_CXER};
     c.sy = menu[rs.below(sizeof(menu) / sizeof(menu[0]))];
     EncResult e = encode_to_vec(c.td, v.st, c.sy == SY_BER ? SY_DER : c.sy);
+    BerHints hints;
+    if(c.sy == SY_BER) ber_collect_hints(c.td, v.st, hints);
     free_struct(c.td, v.st);
     if(e.aborted) { skip = "encode_abort"; return false; }
     if(e.encoded < 0) { skip = std::string("encode_failed_") + syntax_name(c.sy); return false; }
     Bytes E = e.out;
     if(c.sy == SY_BER) {
         Bytes var; VariantStats vs;
-        if(!ber_variant(E, rvar, var, vs)) { skip = "variant_unparsable"; return false; }
+        if(!ber_variant(E, rvar, var, vs, &hints)) { skip = "variant_unparsable"; return false; }
         E = var;
         G.add("c05.variant.indefinite", vs.indefinite); G.add("c05.variant.longform", vs.longform); G.add("c05.variant.segmented", vs.segmented);
     }
